@@ -24,9 +24,11 @@ TIERS = {
     "quick": {"shards": 4, "cases": 700, "timeout": 300},
     "thorough": {"shards": 16, "cases": 8000, "timeout": 3000},
 }
-FLOORS = {"quick": {"distinct_nontrivial": 2500, "life_points_checked": 10000, "formats_with_printed_width": 3000,
+FLOORS = {"quick": {"tables_without_any_structure_checked": 140,
+                    "distinct_nontrivial": 2500, "life_points_checked": 10000, "formats_with_printed_width": 3000,
                     "formats_with_limits": 1500, "noop_formats_checked": 30000},
-          "thorough": {"distinct_nontrivial": 100000, "life_points_checked": 500000,
+          "thorough": {"tables_without_any_structure_checked": 560,
+                       "distinct_nontrivial": 100000, "life_points_checked": 500000,
                        "formats_with_printed_width": 150000, "formats_with_limits": 70000,
                        "noop_formats_checked": 1500000}}
 LEVEL_TEXT = ("Runtime exploration over table life histories: the reported format string is fed back through both "
